@@ -320,24 +320,11 @@ func quasiSafePrimeRule(P *Program, R *Report) {
 	okLoop := false
 	for _, b := range fn.Blocks {
 		for _, ins := range b.Instrs {
-			phi, ok := ins.(*ssa.Phi)
-			if !ok || len(phi.Edges) != 2 {
-				continue
-			}
-			start := false
-			for _, e := range phi.Edges {
-				if c, ok := constInt(e); ok && c == 2 {
-					start = true
-				}
-			}
-			if !start {
-				continue
-			}
-			for _, j := range b.Instrs {
-				if bo, ok := j.(*ssa.BinOp); ok && bo.Op == token.LSS && bo.X == ssa.Value(phi) {
-					if c, ok := constInt(bo.Y); ok && c == 1024 {
-						okLoop = true
-					}
+			if phi, ok := ins.(*ssa.Phi); ok {
+				// counting up from 2 below 1024, or down from 1023 to 2: the same set of divisors (the verdict is false if
+				// any of them divides, so the order is immaterial)
+				if lo, hi, ok := countedRange(phi); ok && lo == 2 && hi == 1023 {
+					okLoop = true
 				}
 			}
 		}
@@ -917,6 +904,84 @@ func useAfterCheckRule(P *Program, R *Report, rule string) {
 	R.decide(rule, kVKVerify+":uses", "uses of proof fields in VerifyProof were found (>= 20)", uses >= 20, fmt.Sprintf("%d", uses), "")
 }
 
+// countedRange: phi is the counter of a loop with a constant start, a step of +1 or -1 and a constant bound tested
+// in the loop header; returns the inclusive range of values the body sees.
+func countedRange(phi *ssa.Phi) (lo, hi int64, ok bool) {
+	if len(phi.Edges) != 2 {
+		return 0, 0, false
+	}
+	var start, step int64
+	haveStart, haveStep := false, false
+	for _, e := range phi.Edges {
+		if c, isC := constInt(e); isC {
+			start, haveStart = c, true
+			continue
+		}
+		if bo, isB := e.(*ssa.BinOp); isB && bo.X == ssa.Value(phi) {
+			if c, isC := constInt(bo.Y); isC && c == 1 {
+				switch bo.Op {
+				case token.ADD:
+					step, haveStep = 1, true
+				case token.SUB:
+					step, haveStep = -1, true
+				}
+			}
+		}
+	}
+	if !haveStart || !haveStep {
+		return 0, 0, false
+	}
+	for _, j := range phi.Block().Instrs {
+		bo, isB := j.(*ssa.BinOp)
+		if !isB {
+			continue
+		}
+		iff, isIf := phi.Block().Instrs[len(phi.Block().Instrs)-1].(*ssa.If)
+		if !isIf || iff.Cond != ssa.Value(bo) {
+			continue
+		}
+		op := bo.Op
+		var bound int64
+		switch {
+		case bo.X == ssa.Value(phi):
+			c, isC := constInt(bo.Y)
+			if !isC {
+				continue
+			}
+			bound = c
+		case bo.Y == ssa.Value(phi):
+			c, isC := constInt(bo.X)
+			if !isC {
+				continue
+			}
+			bound = c
+			switch op {
+			case token.LSS:
+				op = token.GTR
+			case token.LEQ:
+				op = token.GEQ
+			case token.GTR:
+				op = token.LSS
+			case token.GEQ:
+				op = token.LEQ
+			}
+		default:
+			continue
+		}
+		switch {
+		case step == 1 && op == token.LSS:
+			return start, bound - 1, true
+		case step == 1 && op == token.LEQ:
+			return start, bound, true
+		case step == -1 && op == token.GTR:
+			return bound + 1, start, true
+		case step == -1 && op == token.GEQ:
+			return bound, start, true
+		}
+	}
+	return 0, 0, false
+}
+
 func validKeyRejectionsRule(P *Program, R *Report) {
 	rule := "C17.h"
 	fn := mustFunc(P, R, rule, kVKVerify)
@@ -950,6 +1015,9 @@ func validKeyRejectionsRule(P *Program, R *Report) {
 				return "structure check " + calleeName(c), true
 			case calleeIs(c, "zkproof.BuildGroup") && idx == 1 && a.Want == False:
 				return "group cannot be built", true
+			case calleeIs(c, "keyproof.quasiSafePrimeProductVerifyProof") && a.Want == False:
+				// the final verdict: the composite sub-proof fails (its own rejections are C17.c's)
+				return "quasi-safe-prime-product proof fails", true
 			}
 			return "call " + calleeName(c), false
 		}
@@ -1049,7 +1117,7 @@ func asppCommitmentsHashedRule(P *Program, R *Report, rule string) {
 	if fx := mustFunc(P, R, rule, kx); fx != nil {
 		ok := false
 		for _, r := range returnsOf(fx) {
-			if c, isC := r.Results[0].(*ssa.Call); isC && isCallTo(c, "builtin:append") && desc(callArgs(c)[0]) == "arg#0" && desc(callArgs(c)[1]) == ap+".Commitments" {
+			if c, isC := retValue(r, 0).(*ssa.Call); isC && isCallTo(c, "builtin:append") && desc(callArgs(c)[0]) == "arg#0" && desc(callArgs(c)[1]) == ap+".Commitments" {
 				ok = true
 			} else {
 				ok = false
@@ -1063,7 +1131,7 @@ func asppCommitmentsHashedRule(P *Program, R *Report, rule string) {
 		for _, c := range callsIn(fq) {
 			if calleeName(c) == kx && desc(callArgs(c)[0]) == "arg#0" && desc(callArgs(c)[1]) == "<keyproof.QuasiSafePrimeProductProof>.ASPPproof" {
 				for _, r := range returnsOf(fq) {
-					if r.Results[0] == c.Value() {
+					if retValue(r, 0) == c.Value() {
 						ok = true
 					}
 				}
@@ -1137,7 +1205,7 @@ func pedersenCommitHashedRule(P *Program, R *Report, rule string) {
 			if g != fn {
 				returned := false
 				for _, r := range returnsOf(fn) {
-					if c, _ := callAndResult(r.Results[0]); c != nil && staticCallee(c) == g {
+					if c, _ := callAndResult(retValue(r, 0)); c != nil && staticCallee(c) == g {
 						returned = true
 						// (inside the helper the commitment object is a parameter: the function hands it its own new object)
 						for _, a := range callArgs(c) {
@@ -1168,7 +1236,7 @@ func pedersenCommitHashedRule(P *Program, R *Report, rule string) {
 			// ... and the extended list is what the representation proof continues from
 			okFwdG := false
 			for _, r := range returnsOf(g) {
-				if c, _ := callAndResult(r.Results[0]); c != nil {
+				if c, _ := callAndResult(retValue(r, 0)); c != nil {
 					for _, a := range callArgs(c) {
 						if ap, isAp := a.(*ssa.Call); isAp && isCallTo(ap, "builtin:append") {
 							okFwdG = true
